@@ -42,6 +42,7 @@ type concCase struct {
 	Goroutines int
 	Procs      int
 	Rounds     int
+	RefAfter   bool // compute the sequential reference results AFTER the concurrent rounds (a reference run first would warm any lazily filled cache and hide races on its first fill)
 }
 
 var concKinds = []string{"canon-own", "canon-shared", "canon-alloc", "iter", "dawg-build", "dawg-lookup", "dawg-search", "observe",
@@ -52,7 +53,8 @@ func genConcCase(t *rapid.T) concCase {
 		SetA: genSet(t, 8), SetB: genSet(t, 8),
 		Goroutines: rapid.SampledFrom([]int{2, 3, 4, 8, 16}).Draw(t, "goroutines"),
 		Procs:      rapid.SampledFrom([]int{1, 2, 4, 16}).Draw(t, "procs"),
-		Rounds:     rapid.IntRange(1, 3).Draw(t, "rounds")}
+		Rounds:     rapid.IntRange(1, 3).Draw(t, "rounds"),
+		RefAfter:   rapid.Bool().Draw(t, "refafter")}
 	if rapid.IntRange(0, 2).Draw(t, "withsearch") == 0 {
 		n := rapid.IntRange(3, 6).Draw(t, "sn")
 		m := rapid.IntRange(2, 4).Draw(t, "sm")
@@ -60,7 +62,7 @@ func genConcCase(t *rapid.T) concCase {
 			c.Tasks = append(c.Tasks, cTask{Kind: "search", A: a, B: m, G: GSpec{N: n}})
 		}
 	}
-	k := rapid.IntRange(2, 10).Draw(t, "ntasks")
+	k := rapid.IntRange(3, 12).Draw(t, "ntasks")
 	for i := 0; i < k; i++ {
 		tk := cTask{Kind: rapid.SampledFrom(concKinds).Draw(t, "kind"), A: rapid.IntRange(0, 11).Draw(t, "a"), B: rapid.IntRange(0, 5).Draw(t, "b")}
 		switch tk.Kind {
@@ -73,7 +75,7 @@ func genConcCase(t *rapid.T) concCase {
 		}
 		c.Tasks = append(c.Tasks, tk)
 		// the same task a second time makes two goroutines run exactly the same code on the shared values
-		if rapid.IntRange(0, 2).Draw(t, "twin") == 0 {
+		if rapid.IntRange(0, 1).Draw(t, "twin") == 0 {
 			c.Tasks = append(c.Tasks, tk)
 		}
 	}
@@ -317,13 +319,19 @@ func checkConcCase(c concCase, rec *Rec) error {
 	if sh.dg, err = buildDawg(c.Words); err != nil {
 		return err
 	}
-	// sequential reference results
+	// sequential reference results (before or after the concurrent rounds, see RefAfter)
 	want := make([]string, len(c.Tasks))
-	for i, tk := range c.Tasks {
-		var p any
-		p = try(func() { want[i] = runConcTask(sh, tk) })
-		if p != nil {
-			return fmt.Errorf("task %d (%s) panicked when run alone: %v", i, tk.Kind, p)
+	reference := func() error {
+		for i, tk := range c.Tasks {
+			if p := try(func() { want[i] = runConcTask(sh, tk) }); p != nil {
+				return fmt.Errorf("task %d (%s) panicked when run alone: %v", i, tk.Kind, p)
+			}
+		}
+		return nil
+	}
+	if !c.RefAfter {
+		if err := reference(); err != nil {
+			return err
 		}
 	}
 	prev := runtime.GOMAXPROCS(c.Procs)
@@ -345,6 +353,11 @@ func checkConcCase(c concCase, rec *Rec) error {
 		}
 		close(start)
 		wg.Wait()
+		if c.RefAfter && round == 0 {
+			if err := reference(); err != nil {
+				return err
+			}
+		}
 		for i := range c.Tasks {
 			if panics[i] != nil {
 				return fmt.Errorf("task %d (%s) panicked when run concurrently with %d others: %v", i, c.Tasks[i].Kind, len(c.Tasks)-1, panics[i])
@@ -394,7 +407,7 @@ func checkConcCase(c concCase, rec *Rec) error {
 
 func init() {
 	s := RegisterRapid("C19_concurrent_workloads",
-		"rapid (run from the -race binary): a workload of 2..~20 tasks drawn from 18 kinds - all m shards of search.All(n<=6), CanonicalIsomorphFull on own graphs and on ONE shared read-only graph held as dense/sparse/three views, CanonicalIsomorphAllocated with own storage, eight itertools iterators, own dawg Builders, Lookup and Search (own searchers) on ONE shared Dawg, observers / clique / colouring / distance / block / counting / planarity / codec functions on the shared graph, AllMaximalCliques with own channels, comb and sortints functions on shared read-only slices, RandomGraph/RandomTree, the named generators, tsp.LIB to own buffers; a third of the tasks are duplicated so that two goroutines run identical code on the shared values. Each task's result is computed alone first, then all tasks run on 2..16 goroutines behind a start barrier with GOMAXPROCS in {1,2,4,16}, 1..3 rounds. Violation: any race-detector report (GORACE=halt_on_error), any panic, any result that differs from the sequential one, or shards that no longer partition the classes. Schedules are sampled, not enumerated. Non-trivial: >= 2 tasks on >= 2 goroutines.",
-		Budget{Checks: 120, Shards: 2}, Budget{Checks: 400, Shards: 16}, genConcCase, checkConcCase)
+		"rapid (run from the -race binary): a workload of 2..~20 tasks drawn from 18 kinds - all m shards of search.All(n<=6), CanonicalIsomorphFull on own graphs and on ONE shared read-only graph held as dense/sparse/three views, CanonicalIsomorphAllocated with own storage, eight itertools iterators, own dawg Builders, Lookup and Search (own searchers) on ONE shared Dawg, observers / clique / colouring / distance / block / counting / planarity / codec functions on the shared graph, AllMaximalCliques with own channels, comb and sortints functions on shared read-only slices, RandomGraph/RandomTree, the named generators, tsp.LIB to own buffers; half of the tasks are duplicated so that two goroutines run identical code on the shared values. Each task's result is computed alone (before the concurrent rounds, or - in half of the cases - after the first one, so that lazily filled caches are still cold when the goroutines start), and all tasks run on 2..16 goroutines behind a start barrier with GOMAXPROCS in {1,2,4,16}, 1..3 rounds. Violation: any race-detector report (GORACE=halt_on_error), any panic, any result that differs from the sequential one, or shards that no longer partition the classes. Schedules are sampled, not enumerated. Non-trivial: >= 2 tasks on >= 2 goroutines.",
+		Budget{Checks: 150, Shards: 3}, Budget{Checks: 500, Shards: 16}, genConcCase, checkConcCase)
 	s.Race = true
 }
